@@ -18,18 +18,16 @@ Definition tok_k (k : ikind) (z : Z) : list Z :=
   match k with KI => print_d z | KH => print_d z ++ [104] | KC => print_char z end.
 Definition good_k (k : ikind) (z : Z) : Prop :=
   match k with KI => - 2 ^ 31 <= z < 2 ^ 31 | KH => - 2 ^ 63 <= z < 2 ^ 63 | KC => 0 <= z <= 255 end.
-(* half the range: differences and spans of such values do not wrap *)
+(* a value whose token the recognisers read back and which contains no '.' *)
 Definition small_k (k : ikind) (z : Z) : Prop :=
-  match k with KH => - 2 ^ 62 < z < 2 ^ 62 | KI => - 2 ^ 30 < z < 2 ^ 30 | KC => 0 <= z <= 255 /\ z <> 46 end.
+  good_k k z /\ match k with KC => z <> 46 | _ => True end.
 
 Lemma good_k_val k z : good_k k z -> good_val (mk k z).
 Proof. destruct k; cbn; unfold good_char; tauto. Qed.
 Lemma small_good k z : small_k k z -> good_k k z.
-Proof. destruct k; cbn; lia. Qed.
+Proof. now intros [H _]. Qed.
 Lemma small_inr k z : small_k k z -> inr k z.
-Proof. destruct k; cbn; lia. Qed.
-Lemma small_diff k a b : small_k k a -> small_k k b -> inr k (a - b).
-Proof. destruct k; cbn; lia. Qed.
+Proof. intros [H _]. destruct k; cbn in *; lia. Qed.
 
 Section Kinds.
 Variables dec2f dec2d : list Z -> Z.
@@ -126,7 +124,8 @@ Definition tail_text (k : ikind) (b last : Z) (sp : list Z) : list Z :=
 
 (* the run b, b+d, ..., last of m values without wrap-around *)
 Definition run_ok (k : ikind) (b d m last : Z) : Prop :=
-  small_k k b /\ small_k k last /\ last = b + (m - 1) * d /\ 1 <= m < 2 ^ 31 /\ d <> 0 /\ inr k d.
+  small_k k b /\ small_k k last /\ last = b + (m - 1) * d /\ 1 <= m < 2 ^ 31 /\ d <> 0 /\ inr k d /\
+  inr k (last - b).
 
 Section Tail.
 Variables dec2f dec2d : list Z -> Z.
@@ -174,7 +173,7 @@ Lemma scan_tail k b d m last sp rest f before nb u l :
   scan_arg_val dec2f dec2d (S (S f)) (tail_text k b last sp ++ rest) before nb true
   = Ok ([VRep m 1; mk k d; mk k b], rest).
 Proof.
-  intros (Hsb & Hsl & Hlast & Hm & Hd0 & Hdr) Hsp Hr Hu Hctx.
+  intros (Hsb & Hsl & Hlast & Hm & Hd0 & Hdr & Hw) Hsp Hr Hu Hctx.
   pose proof (small_good _ _ Hsb) as Hgb. pose proof (small_good _ _ Hsl) as Hgl.
   destruct (after_lhs k last sp rest Hgl Hsp) as (HR0 & Hell & Hs1 & H93).
   unfold tail_text. rewrite <- !app_assoc.
@@ -185,10 +184,10 @@ Proof.
   subst f1. rewrite Hrd, Hu. cbn [andb].
   destruct Hctx as [(-> & Hd & Hm2)|(-> & a & -> & Hda)].
   - rewrite (dfa_unity k b last d m l); try assumption; try lia;
-      try (now apply small_inr); try (now apply small_diff).
+      try (now apply small_inr).
     replace (m =? -1) with false by lia. reflexivity.
   - rewrite (dfa_delta k a b last d m); try assumption; try lia;
-      try (now apply small_inr); try (now apply small_diff).
+      try (now apply small_inr).
     replace (m =? -1) with false by lia. reflexivity.
 Qed.
 End Tail.
@@ -222,7 +221,7 @@ Lemma skip_tail k b d m last sp rest f llhs ib u la :
    u = false /\ exists a, la = Some (mk k a) /\ d = b - a) ->
   skip_next dec2f dec2d (S (S f)) (tail_text k b last sp ++ rest) llhs true ib = Ok (rest, 3, 45).
 Proof.
-  intros (Hsb & Hsl & Hlast & Hm & Hd0 & Hdr) Hsp Hr Hchk Hctx.
+  intros (Hsb & Hsl & Hlast & Hm & Hd0 & Hdr & Hw) Hsp Hr Hchk Hctx.
   pose proof (small_good _ _ Hsb) as Hgb. pose proof (small_good _ _ Hsl) as Hgl.
   destruct (after_lhs k last sp rest Hgl Hsp) as (HR0 & Hell & Hs1 & H93).
   assert (Hrm : is_range_multiplier (tok_k k b ++ ell4 ++ sp ++ tok_k k last ++ rest) = false)
@@ -243,10 +242,10 @@ Proof.
   cbn [negb andb]. rewrite Hchk. cbn [orb andb].
   destruct Hctx as [(-> & Hd & Hm2)|(-> & a & -> & Hda)].
   - rewrite (dfa_unity k b last d m (mk k b)); try assumption; try lia;
-      try (now apply small_inr); try (now apply small_diff).
+      try (now apply small_inr).
     replace (m =? -1) with false by lia. reflexivity.
   - rewrite (dfa_delta k a b last d m); try assumption; try lia;
-      try (now apply small_inr); try (now apply small_diff).
+      try (now apply small_inr).
     replace (m =? -1) with false by lia. reflexivity.
 Qed.
 End TailChk.
@@ -502,10 +501,10 @@ Proof.
   - pose proof (print_d_chars z) as Hc. split.
     + apply Forall_app. split; [eapply Forall_impl; [|exact Hc]; cbn; lia|repeat constructor; lia].
     + exists (print_d z), 104. split; [reflexivity|]. split; [lia|reflexivity].
-  - unfold print_char. destruct (as_escaped_char z true) as [e|] eqn:E.
-    + destruct (esc_chr_ne _ _ E). split; [repeat constructor; lia|].
+  - destruct Hs as [_ Hz]. unfold print_char. destruct (as_escaped_char z true) as [e|] eqn:E.
+    + destruct (esc_chr_ne _ _ E). split; [repeat (constructor; [lia|]); constructor|].
       exists [39; 92; e], 39. split; [reflexivity|]. split; [lia|reflexivity].
-    + split; [repeat constructor; lia|]. exists [39; z], 39. split; [reflexivity|]. split; [lia|reflexivity].
+    + split; [repeat (constructor; [lia|]); constructor|]. exists [39; z], 39. split; [reflexivity|]. split; [lia|reflexivity].
 Qed.
 
 Lemma lastns_end i c sp c0 :
@@ -891,40 +890,11 @@ Definition goodc (v : av) : Prop :=
   end.
 
 Lemma goodc_good v : goodc v -> good_val v.
-Proof. destruct v; cbn; unfold good_char; try tauto; lia. Qed.
+Proof. destruct v; cbn; unfold small_k, good_k, good_char; try tauto; lia. Qed.
 Lemma goodc_facts v : goodc v -> scalar v /\ inrv v /\ exact v.
-Proof. destruct v; cbn; try tauto; lia. Qed.
+Proof. destruct v; cbn; unfold small_k, good_k; try tauto; lia. Qed.
 Lemma goodc_mk k z : goodc (mk k z) -> small_k k z.
 Proof. destruct k; cbn; tauto. Qed.
-
-Definition Mk (k : ikind) : Z := match k with KH => 2 ^ 64 | _ => 2 ^ 32 end.
-Lemma wr_mod k z : exists q, wr k z = z + q * Mk k.
-Proof.
-  destruct k; cbn [wr Mk]; unfold wrap32, wrap64.
-  - exists (- ((z + 2 ^ 31) / 2 ^ 32)). pose proof (Z.div_mod (z + 2 ^ 31) (2 ^ 32) ltac:(lia)). lia.
-  - exists (- ((z + 2 ^ 63) / 2 ^ 64)). pose proof (Z.div_mod (z + 2 ^ 63) (2 ^ 64) ltac:(lia)). lia.
-  - exists (- ((z + 2 ^ 31) / 2 ^ 32)). pose proof (Z.div_mod (z + 2 ^ 31) (2 ^ 32) ltac:(lia)). lia.
-Qed.
-
-Lemma small_bound k z : small_k k z -> - Mk k < 4 * z < Mk k.
-Proof. intros H. destruct k; cbn [small_k Mk] in *; lia. Qed.
-Lemma inr_bound k z : inr k z -> - Mk k <= 2 * z < Mk k.
-Proof. intros H. destruct k; cbn [inr Mk] in *; lia. Qed.
-
-(* a chain of small values with an in-range step does not wrap *)
-Lemma small_chain k x d n :
-  small_k k x -> inr k d -> (forall j, (j < n)%nat -> small_k k (wr k (x + Z.of_nat j * d))) ->
-  forall j, (j < n)%nat -> wr k (x + Z.of_nat j * d) = x + Z.of_nat j * d.
-Proof.
-  intros Hx Hd Hs j. induction j as [|j IH]; intros Hj.
-  - replace (x + Z.of_nat 0 * d) with x by lia. apply wr_id. now apply small_inr.
-  - pose proof (Hs (S j) Hj) as H1. pose proof (Hs j ltac:(lia)) as H0. rewrite IH in H0 by lia.
-    destruct (wr_mod k (x + Z.of_nat (S j) * d)) as [q Hq]. rewrite Hq in *.
-    apply small_bound in H0. apply small_bound in H1. apply inr_bound in Hd.
-    assert (0 < Mk k) by (destruct k; cbn; lia).
-    replace (x + Z.of_nat (S j) * d) with (x + Z.of_nat j * d + d) in * by lia.
-    assert (q = 0) by nia. subst q. lia.
-Qed.
 
 Lemma pav_mk o k z cols f :
   print_arg_val_f (S f) o [mk k z] cols None = Some (tok_k k z, len (tok_k k z), cols + len (tok_k k z), false).
@@ -1133,7 +1103,7 @@ Proof.
     split; [reflexivity|]. split; [split; [reflexivity|split; assumption]|reflexivity].
   - destruct (range_expand_shape o (a0 :: rest) size c kk Hsc Hin Hex0 Hlen Hcv) as (n & -> & Hn5 & Hexp & Hshape).
     destruct Hn5 as [Hn5 Hnl].
-    destruct Hshape as [[[y Ec] Hrep]|(k & d & x & y & Ec & Hdr & Hhd & Hd0)]; subst c; cbn [hd] in *.
+    destruct Hshape as [[[y Ec] Hrep]|(k & d & x & y & Ec & Hdr & Hhd & Hd0 & Hexj)]; subst c; cbn [hd] in *.
     + (* N x value *)
       rewrite (print_range_const_eq (Z.of_nat n) a0 y cols prev ltac:(lia) Hs0) in Hp.
       destruct (print_scalar o a0 (cols + len (dec_nat (Z.of_nat n) ++ [120]))) as [[[t' w'] c']|] eqn:Eps;
@@ -1150,12 +1120,11 @@ Proof.
     + (* a run with a step *)
       subst a0. rewrite expand_delta in Hexp by lia. rewrite Nat2Z.id in Hexp. inversion Hexp as [Hm]. clear Hexp.
       assert (Hsx : small_k k x) by (apply goodc_mk; exact Hg0).
+      assert (Hex : forall j, (j < n)%nat -> wr k (x + Z.of_nat j * d) = x + Z.of_nat j * d)
+        by (intros j Hj; apply wr_id; apply (Hexj j Hj)).
       assert (Hsm : forall j, (j < n)%nat -> small_k k (wr k (x + Z.of_nat j * d))).
-      { intros j Hj. apply goodc_mk. eapply Forall_forall; [exact Hg|].
-        eapply nth_error_In. rewrite (nth_firstn (mk k x :: rest) _ n j (eq_sym Hm) Hj).
-        rewrite nth_error_map, nth_error_nth' with (d := 0%nat) by (rewrite seq_length; lia).
-        rewrite seq_nth by lia. reflexivity. }
-      pose proof (small_chain k x d n Hsx Hdr Hsm) as Hex.
+      { intros j Hj. rewrite Hex by assumption. apply goodc_mk. eapply Forall_forall; [exact Hg|].
+        eapply nth_error_In. exact (proj1 (Hexj j Hj)). }
       set (last := x + (Z.of_nat n - 1) * d).
       assert (Hlast : wr k (x + (Z.of_nat n - 1) * d) = last).
       { replace (Z.of_nat n - 1) with (Z.of_nat (n - 1)) by lia. rewrite Hex by lia. unfold last. f_equal. f_equal. lia. }
@@ -1178,7 +1147,9 @@ Proof.
           apply map_ext_in. intros j Hj. apply in_seq in Hj. now rewrite Hex by lia. }
         split; [|exact Hnth].
         cbn [iter_text item_text item_ok]. split; [reflexivity|]. split; [|split; [exact Hsp|]].
-        { unfold run_ok. repeat split; try assumption; try lia. }
+        { unfold run_ok. split; [exact Hsx|]. split; [exact Hslast|]. split; [unfold last; lia|]. split; [lia|].
+          split; [exact Hd0|]. split; [exact Hdr|].
+          replace (last - x) with (Z.of_nat (n - 1) * d) by (unfold last; lia). apply (Hexj (n - 1)%nat). lia. }
         unfold ctx_ok, unit_step. destruct prev as [p|]; [|split; [assumption|lia]].
         rewrite (types_match_kind p k x (Hprev p eq_refl)). cbn [notconf] in Hnc.
         destruct Hnc as [Hne| ->].
@@ -1198,7 +1169,9 @@ Proof.
         { specialize (Hsm 1%nat ltac:(lia)). rewrite Hex in Hsm by lia. now replace (x + Z.of_nat 1 * d) with (x + d) in Hsm by lia. }
         split; [split; [apply tok_k_tokof; now apply small_good|exact (proj1 (tok_k_chars k x Hsx))]|].
         split; [|split; [exact Hsp|]].
-        { unfold run_ok. repeat split; try assumption; try lia; try (unfold last; lia). }
+        { unfold run_ok. split; [exact Hsxd|]. split; [exact Hslast|]. split; [unfold last; lia|]. split; [lia|].
+          split; [exact Hd0|]. split; [exact Hdr|].
+          replace (last - (x + d)) with (Z.of_nat (n - 2) * d) by (unfold last; lia). apply (Hexj (n - 2)%nat). lia. }
         unfold ctx_ok. rewrite (types_match_kind (mk k x) k (x + d)) by now destruct k.
         replace (av_type (mk k x) =? av_type (mk k (x + d))) with true by (destruct k; reflexivity).
         exists x. split; [reflexivity|]. right. split; lia.
